@@ -118,9 +118,27 @@ fn proof_case<G: CurveTag>(bytes: &[u8], col: &mut Collector, prefixes: bool) ->
         GenCfg::small()
     };
     let prog = gen_program(&mut ch, G::CURVE, &cfg);
+    proof_prog::<G>(prog, col, prefixes)
+}
+
+/// a circuit with `n` gates (k = 12, 13: beyond the sizes the generator reaches)
+fn scale_case<G: CurveTag>(n: usize, col: &mut Collector) -> Result<(), Failure> {
+    use crate::program::{Cap, Op, Program, Sc};
+    use crate::scalars::ScalarSpec;
+    let mut ops = vec![Op::Commit { v: ScalarSpec::Small(7), blind: ScalarSpec::Rand(3) }];
+    for i in 0..n {
+        ops.push(Op::AllocMul { l: Sc::C(ScalarSpec::Small(1 + i as u64)), r: Sc::C(ScalarSpec::Rand(i as u64)) });
+    }
+    let prog = Program { curve: G::CURVE, tlabel: 0, pre: vec![], ops, owned: false, cap_p: Cap::Exact, cap_v: Cap::Exact, party_cap: 1, seed: n as u64, pc: 0, gens: 0 };
+    proof_prog::<G>(prog, col, false)?;
+    col.class("scale");
+    Ok(())
+}
+
+fn proof_prog<G: CurveTag>(prog: crate::program::Program, col: &mut Collector, prefixes: bool) -> Result<(), Failure> {
     let shape = prog.shape();
     let k = shape.k();
-    let pj = || json!({"program": prog.to_json()});
+    let pj = || json!({"program": if shape.n() > 300 { json!(format!("{} allocate_multiplier gates, one commitment", shape.n())) } else { prog.to_json() }});
     let p = run_prover::<G>(&prog, &ProveOpts::default());
     let Some(proof) = p.proof.as_ref() else {
         col.note("prover failed (left to C01)");
@@ -252,7 +270,7 @@ fn proof_case<G: CurveTag>(bytes: &[u8], col: &mut Collector, prefixes: bool) ->
         for a in 0..npts {
             for b in (a + 1)..npts {
                 let both_ipp = a >= 11 && b >= 11;
-                if both_ipp || (a + 3 * b + bytes.len()) % 7 == 0 {
+                if both_ipp || (a + 3 * b + e.len() + shape.m) % 7 == 0 {
                     pairs.push((a, b));
                 }
             }
@@ -305,6 +323,10 @@ fn dispatch(sub: &str, bytes: &[u8], col: &mut Collector) -> Result<(), Failure>
 }
 
 pub fn replay(sub: &str, bytes: &[u8], col: &mut Collector) -> Result<(), Failure> {
+    if sub == "c11/scale" && bytes.len() == 3 {
+        let n = (bytes[1] as usize) << 8 | bytes[2] as usize;
+        return with_curve!(Curve::ALL[bytes[0] as usize % 3], G => scale_case::<G>(n, col));
+    }
     dispatch(sub, bytes, col)
 }
 
@@ -326,6 +348,17 @@ pub fn run(tier: &str, seed: u64) -> i32 {
         rep.outcome.merge(search(&sub, seed, n, 700, &|b, col| dispatch(&sub, b, col)));
         let sub2 = format!("c11/{}/prefixes", c.name());
         rep.outcome.merge(search(&sub2, seed, np, 500, &|b, col| dispatch(&sub2, b, col)));
+    }
+    // k = 12 / 13: beyond the sizes the generator reaches
+    if rep.outcome.found.is_empty() {
+        let items: Vec<(Curve, usize)> = if tier == "thorough" {
+            Curve::ALL.iter().flat_map(|c| [(*c, 4096usize), (*c, 4097)]).collect()
+        } else {
+            vec![(Curve::ALL[((seed + 2) % 3) as usize], 2049)]
+        };
+        let mut o = crate::runner::enumerate("c11/scale", &items, &|(c, n)| vec![c.index() as u8, (*n >> 8) as u8, *n as u8], &|(c, n), col| with_curve!(*c, G => scale_case::<G>(*n, col)));
+        o.exhaustive = false;
+        rep.outcome.merge(o);
     }
     for (c, f) in [("k=0", 0.02), ("k=1", 0.02), ("k=3", 0.01), ("second-phase-commitments", 0.05), ("all-prefixes", 0.0005)] {
         rep.required_classes.push((c.to_string(), f));
